@@ -493,6 +493,9 @@ def replay(ctx, data):
     fields = make_fields(qib)
     if replay_composite(ctx, "C01", data):
         return
+    from checks import pauli_flags
+    if pauli_flags.replay_flag(ctx, "C01", data):
+        return
     inp = data["input"]
     try:
         gate, _ = build_gate(qib, fields, inp)
